@@ -306,6 +306,9 @@ type P2 struct {
 type Case struct {
 	Steps  []Step `json:"steps"`
 	Phase2 []P2   `json:"phase2"`
+	// Reregister: bit i set = before the transaction, action i's name is registered again with a new
+	// service instance (a re-created service object): try and phase two must reach the new instance
+	Reregister int `json:"reregister,omitempty"`
 }
 
 func canon(v interface{}) string {
@@ -335,6 +338,17 @@ func runCase(c Case) *pt.Failure {
 func execute(c Case) *pt.Failure {
 	tc.Reset()
 	tm.InitTm(tm.TmConfig{CommitRetryCount: 1, RollbackRetryCount: 1, DefaultGlobalTransactionTimeout: 60 * time.Second})
+	for i := range actions {
+		if c.Reregister&(1<<i) != 0 {
+			na := &action{name: actions[i].name}
+			p, err := tcc.NewTCCServiceProxy(na)
+			if err != nil {
+				return pt.Failf("C05/reregister-refused", "registering action %q again failed: %v", na.name, err)
+			}
+			actions[i], proxies[i] = na, p
+		}
+	}
+	tc.Quiesce(time.Second)
 	for _, a := range actions {
 		a.reset()
 	}
@@ -623,6 +637,9 @@ func drawCase(t *rapid.T) Case {
 			p.Resource = "no-such-action"
 		}
 		c.Phase2 = append(c.Phase2, p)
+	}
+	if rapid.IntRange(0, 5).Draw(t, "reregister") == 0 {
+		c.Reregister = rapid.IntRange(1, 7).Draw(t, "reregisterMask")
 	}
 	return c
 }
